@@ -603,4 +603,153 @@ theorem run_merge13 (H : Crypto.Prims) (P : Prims) (L : SealLaws P) (kl : List K
         rw [plainOf_cons e rest, List.append_assoc]
       · simp [upd, hd]
 
+-- ------------------------------------------------------------------ the hello phase
+theorem serverHello_flags (O : Session.Ops Dec) (s : Session.St Dec) (r : Session.Rec) :
+    (Session.serverHello O s r).st.srvCC = s.srvCC ∧ (Session.serverHello O s r).st.cliCC = s.cliCC := by
+  have hl : (Session.latch s).srvCC = s.srvCC ∧ (Session.latch s).cliCC = s.cliCC := by
+    unfold Session.latch; split <;> exact ⟨rfl, rfl⟩
+  have hc : ∀ (t : Session.St Dec) (a b : Nat) (c : Bool),
+      (Session.chooseVersion t a b c).srvCC = t.srvCC ∧ (Session.chooseVersion t a b c).cliCC = t.cliCC := by
+    intro t a b c; unfold Session.chooseVersion; repeat' split
+    all_goals exact ⟨rfl, rfl⟩
+  have hk : ∀ (t : Session.St Dec) (su sr : Bytes) (e : Session.Exts) (c : UInt8),
+      (Session.serverHelloKeys O t su sr e c).st.srvCC = t.srvCC ∧ (Session.serverHelloKeys O t su sr e c).st.cliCC = t.cliCC := by
+    intro t su sr e c; unfold Session.serverHelloKeys
+    cases t.cr with
+    | none => exact ⟨rfl, rfl⟩
+    | some cr => simp only; split <;> exact ⟨rfl, rfl⟩
+  unfold Session.serverHello
+  simp only
+  split
+  · exact hl
+  · split
+    · exact hl
+    · exact ⟨(hk _ _ _ _ _).1.trans ((hc _ _ _ _).1.trans hl.1), (hk _ _ _ _ _).2.trans ((hc _ _ _ _).2.trans hl.2)⟩
+
+/-- a handshake-type record arriving while no ChangeCipherSpec has been seen leaves both flags clear (without `-a`) -/
+theorem handle_hs_flags (O : Session.Ops Dec) (s : Session.St Dec) (r : Session.Rec) (d : Bool)
+    (ht : r.typ = some 0x16) (h : s.srvCC = false ∧ s.cliCC = false) :
+    (Session.handleRecord O false s r d).srvCC = false ∧ (Session.handleRecord O false s r d).cliCC = false := by
+  have hfin : (Session.handshakeFinished O false s r d).st.srvCC = s.srvCC ∧
+      (Session.handshakeFinished O false s r d).st.cliCC = s.cliCC := by
+    unfold Session.handshakeFinished
+    split
+    · exact ⟨rfl, rfl⟩
+    · split
+      · split
+        · exact ⟨rfl, rfl⟩
+        · simp only [Bool.false_and, Bool.false_eq_true, if_false]; exact ⟨rfl, rfl⟩
+      · exact ⟨rfl, rfl⟩
+  have hst : (Session.handshakeRecord O false s r d).st.srvCC = false ∧
+      (Session.handshakeRecord O false s r d).st.cliCC = false := by
+    unfold Session.handshakeRecord
+    simp only [h.1, h.2, Bool.or_self, Bool.false_eq_true, if_false]
+    split
+    · exact h
+    · split
+      · exact ⟨rfl, rfl⟩
+      · split
+        · have := serverHello_flags O s r
+          cases hsh : Session.serverHello O s r with
+          | ok s' => rw [hsh] at this; exact ⟨this.1.trans h.1, this.2.trans h.2⟩
+          | raised s' => rw [hsh] at this; exact ⟨this.1.trans h.1, this.2.trans h.2⟩
+        · rw [Session.tryExcept_id_st]; exact ⟨hfin.1.trans h.1, hfin.2.trans h.2⟩
+  unfold Session.handleRecord Session.handleRecordRaw
+  rw [ht]
+  simp only [if_true]
+  have hok := Session.handshakeRecord_isOk O false s r d
+  cases hr : Session.handshakeRecord O false s r d with
+  | raised s1 => rw [hr] at hok; cases hok
+  | ok s1 => rw [hr] at hst; exact hst
+
+/-- a prefix of a TLS ≤ 1.2 script's records that contains no ChangeCipherSpec record lies in the clear-text part -/
+theorem prefix_clear (P : Prims) (L : SealLaws P) (cls : CipherClass) (ver : Bytes) (sd : SDir) (A : List Bytes) :
+    ∀ (cl : List Bytes) (rest : List DirEv) (B : List Bytes),
+      A ++ B = sendDir P L cls ver sd (cl.map DirEv.clear ++ DirEv.ccs :: rest) → (∀ r ∈ A, r.head? ≠ some 20) →
+      ∃ cl1 cl2, cl = cl1 ++ cl2 ∧ A = cl1.map (record 22 ver) ∧
+        B = sendDir P L cls ver sd (cl2.map DirEv.clear ++ DirEv.ccs :: rest) := by
+  induction A with
+  | nil => intro cl rest B h _; exact ⟨[], cl, rfl, rfl, by simpa using h⟩
+  | cons r A ih =>
+    intro cl rest B h hno
+    cases cl with
+    | nil =>
+      simp only [List.map_nil, List.nil_append, sendDir, List.cons_append, List.cons.injEq] at h
+      have := hno r (by simp)
+      rw [h.1] at this
+      simp [record] at this
+    | cons b cl =>
+      simp only [List.map_cons, List.cons_append, sendDir, List.cons.injEq] at h
+      obtain ⟨cl1, cl2, h1, h2, h3⟩ := ih cl rest B h.2 (fun r' hr' => hno r' (by simp [hr']))
+      exact ⟨b :: cl1, cl2, by rw [h1]; rfl, by rw [h.1, h2]; rfl, h3⟩
+
+theorem filter_all {α : Type} (p : α → Bool) (l : List α) (h : ∀ a ∈ l, p a = true) : l.filter p = l :=
+  List.filter_eq_self.mpr h
+
+theorem filter_none {α : Type} (p : α → Bool) (l : List α) (h : ∀ a ∈ l, p a = false) : l.filter p = [] :=
+  List.filter_eq_nil_iff.mpr (fun a ha => by simp [h a ha])
+
+/-- the causality hypothesis of TLS ≤ 1.2 unfolded against the two record lists: the released records are the
+    ClientHello, then clear-text client records (no hello, no ChangeCipherSpec), then the ServerHello, then an
+    interleaving of what remains -/
+theorem hello_split (P : Prims) (L : SealLaws P) (cls : CipherClass) (ver : Bytes) (xc xs : SDir) (chR shR : Bytes)
+    (cl : List Bytes) (rest sEvs : List DirEv) (M pre post : List (Session.Rec × Bool))
+    (hC : (M.filter fun q => q.2 == false).map (·.1.raw)
+      = chR :: sendDir P L cls ver xc (cl.map DirEv.clear ++ DirEv.ccs :: rest))
+    (hS : (M.filter fun q => q.2 == true).map (·.1.raw) = shR :: sendDir P L cls ver xs sEvs)
+    (hsplit : M = pre ++ post) (hne : pre ≠ []) (hpre : ∀ q ∈ pre, q.2 = false ∧ q.1.typ ≠ some 20)
+    (hpost : ∃ q post', post = q :: post' ∧ q.2 = true) :
+    ∃ (c0 : List Nat) (noise : List (Session.Rec × Bool)) (c1 : List Nat) (M' : List (Session.Rec × Bool))
+      (cl2 : List Bytes), M = (⟨chR, c0⟩, false) :: (noise ++ (⟨shR, c1⟩, true) :: M') ∧
+      (∀ q ∈ noise, ∃ b car, q = (⟨record 22 ver b, car⟩, false) ∧ b ∈ cl) ∧ (∀ b ∈ cl2, b ∈ cl) ∧
+      (M'.filter fun q => q.2 == false).map (·.1.raw) = sendDir P L cls ver xc (cl2.map DirEv.clear ++ DirEv.ccs :: rest) ∧
+      (M'.filter fun q => q.2 == true).map (·.1.raw) = sendDir P L cls ver xs sEvs := by
+  obtain ⟨q, post', rfl, hq⟩ := hpost
+  obtain ⟨rq, dq⟩ := q
+  simp only at hq
+  subst hq
+  have hpf : pre.filter (fun q => q.2 == false) = pre := filter_all _ _ (fun a ha => by simp [(hpre a ha).1])
+  have hpt : pre.filter (fun q => q.2 == true) = [] := filter_none _ _ (fun a ha => by simp [(hpre a ha).1])
+  subst hsplit
+  rw [List.filter_append, hpf, List.map_append] at hC
+  rw [List.filter_append, hpt, List.nil_append, filter_dir_cons_same, List.map_cons] at hS
+  rw [filter_dir_cons_other _ _ _ _ (by decide)] at hC
+  simp only [List.cons.injEq] at hS
+  obtain ⟨hs1, hs2⟩ := hS
+  cases pre with
+  | nil => exact absurd rfl hne
+  | cons q0 pre' =>
+    obtain ⟨r0, d0⟩ := q0
+    have hd0 : d0 = false := (hpre (r0, d0) (by simp)).1
+    subst hd0
+    simp only [List.map_cons, List.cons_append, List.cons.injEq] at hC
+    obtain ⟨hc1, hc2⟩ := hC
+    obtain ⟨cl1, cl2, e1, e2, e3⟩ := prefix_clear P L cls ver xc (pre'.map (·.1.raw)) cl rest _ hc2 (by
+      intro r hr
+      obtain ⟨q, hq, rfl⟩ := List.mem_map.mp hr
+      exact (hpre q (by simp [hq])).2)
+    refine ⟨r0.carriers, pre', rq.carriers, post', cl2, ?_, ?_, ?_, e3, hs2⟩
+    · have h0 : r0 = ⟨chR, r0.carriers⟩ := by have h : r0.raw = chR := hc1; rw [← h]
+      have h1 : rq = ⟨shR, rq.carriers⟩ := by have h : rq.raw = shR := hs1; rw [← h]
+      rw [← h0, ← h1]; rfl
+    · intro q hq
+      have hmem : q.1.raw ∈ cl1.map (record 22 ver) := by rw [← e2]; exact List.mem_map_of_mem hq
+      obtain ⟨b, hb, hbe⟩ := List.mem_map.mp hmem
+      refine ⟨b, q.1.carriers, ?_, by rw [e1]; simp [hb]⟩
+      obtain ⟨qr, qd⟩ := q
+      have : qd = false := (hpre (qr, qd) (by simp [hq])).1
+      subst this
+      have h : qr.raw = record 22 ver b := hbe.symm
+      rw [← h]
+    · intro b hb; rw [e1]; simp [hb]
+
+theorem run_noops (O : Session.Ops Dec) (m : Bool) (s : Session.St Dec) (l : List (Session.Rec × Bool))
+    (h : ∀ q ∈ l, Session.handleRecord O m s q.1 q.2 = s) : Session.run O m s l = s := by
+  induction l with
+  | nil => rfl
+  | cons q l ih =>
+    simp only [Session.run, List.foldl_cons]
+    rw [h q (by simp)]
+    exact ih (fun q' hq' => h q' (by simp [hq']))
+
 end TLX.Lemmas.Capstone
